@@ -55,8 +55,8 @@ def gen_pair(rng, k, mode, perms=None):
         uuid = '%04X' % (0x3000 + (i % 3 if rng.chance(1, 2) else i))     # some characteristics share a type
         n = rng.choice([0, 1, 5, 5, 5, 20, long_len, long_len])
         v1 = bytes((0x10 + i + j) & 0xFF for j in range(n))
-        rerr = rng.choice([0, 0, 0, 0, 0, 0x80])
-        werr = rng.choice([0, 0, 0, 0, 0, 0x81])
+        rerr = rng.choice([0, 0, 0, 0, 0, 0x80, -1])       # read function raises ATT_Error / something else
+        werr = rng.choice([0, 0, 0, 0, 0, 0x81, -1])
         flavor = rng.choice([0, 0, 1, 2, 3]) if not (rerr or werr) else rng.choice([1, 2, 3])
         may = ac.spec_may_read(perm, sec[0], sec[1], rerr)
         d11a = (not perm & ac.P_READABLE) and ac.link_ok_read(perm, sec[0], sec[1]) and rerr == 0
@@ -78,7 +78,9 @@ def gen_pair(rng, k, mode, perms=None):
             d2 = dict(d1, value=(b'desc-two!' if ddiff else b'desc-one').hex())
             descs1.append(d1)
             descs2.append(d2)
-        base = {'uuid': uuid, 'props': 0x0E, 'perm': perm, 'rerr': rerr, 'werr': werr, 'flavor': flavor}
+        # now and then a NOTIFY/INDICATE characteristic: the server adds its own CCCD after it
+        base = {'uuid': uuid, 'props': 0x3E if i % 8 == 6 else 0x0E, 'perm': perm, 'rerr': rerr, 'werr': werr,
+                'flavor': flavor}
         chars1.append(dict(base, value=v1.hex(), descs=descs1))
         chars2.append(dict(base, value=v2.hex(), descs=descs2))
     decl = {}
@@ -226,6 +228,8 @@ def oracle_single(case, ops, r):
     # final values: an attribute whose writes were all refused (by the link requirement or the callback) is unchanged
     for a, final in zip(mdb, r['values']):
         h = a[0]
+        if a[7]:
+            continue          # server-made CCCD: its value is the bearer's subscription state (checked by the model)
         code = ac.first_refusal(a[2], enc, auth, write=True)
         if (code is not None or a[6] != 0) and bytes.fromhex(final) != bytes(a[3]):
             yield ('refused-write-changed-value', f'handle {h} (permissions 0x{a[2]:02X}, link enc={enc} auth={auth}): '
